@@ -61,7 +61,7 @@ static Outcome in_child(const std::function<void(Res&)>& body) {
     catch (const std::length_error&) { r.put("B"); }      // vector::reserve beyond max_size: the same answer of the environment
     catch (const std::exception&) { r.put("O"); }
     catch (...) { r.put("O"); }
-    _exit(0);
+    vt::child_exit(0);
   }
   close(p[1]);
   std::string s; char buf[256]; ssize_t n;
